@@ -383,7 +383,25 @@ class Interp:
                 return [(st, {"v": "self", "ty": norm_ty(fn0.impl["self_ty"]) if fn0 is not None and getattr(fn0, "impl", None) is not None else None})]
             if n == "None":
                 return [(st, {"v": "none"})]
-            # a free function of the crate?
+            # a free function of the crate?  The one of the module the code is written in; else the one a `use .. [as n]` of that
+            # module names (an import may rename: `use target_scheme::escape_template as escape_string`); else by its name
+            fn0 = st.env.get("__fn")
+            mod0 = tuple(getattr(fn0, "module", ()) or ())
+            here_ = "::".join(mod0 + (n,))
+            if here_ in self.f.fns and self.f.fns[here_].impl is None and not self.f.fns[here_].test:
+                return [(st, {"v": "fn", "key": here_})]
+            for u in self.f.uses.get(mod0, []):
+                if u.get("glob") or (u.get("alias") or (u.get("path") or [None])[-1]) != n:
+                    continue
+                tail = [x for x in u["path"] if x not in ("crate", "self", "super")]
+                if not tail:
+                    continue
+                hits = [key for key, fn in self.f.fns.items() if fn.impl is None and not fn.test and fn.name == tail[-1] and (key == "::".join(tail) or key.endswith("::" + "::".join(tail)) or "::".join(tail).endswith(key))]
+                if len(hits) == 1:
+                    return [(st, {"v": "fn", "key": hits[0]})]
+                if tail[-1] != n and not hits:
+                    # renamed import of something that is no function of the crate (an external item): not the crate's `n`
+                    return [(st, H("name", n))]
             for key, fn in self.f.fns.items():
                 if fn.impl is None and fn.name == n and not fn.test:
                     return [(st, {"v": "fn", "key": key})]
